@@ -552,3 +552,26 @@ func (w *World) Last() *Conn {
 	}
 	return w.Conns[len(w.Conns)-1]
 }
+
+// Run lets the system run for d of virtual time: every timer that becomes due
+// fires (reconnect back-off, connect/resubscribe timeouts, keep-alive), the
+// network is drained in between.
+func (w *World) Run(d time.Duration) {
+	end := time.Now().Add(d)
+	for i := 0; i < 100000; i++ {
+		w.Settle()
+		nw := rt.NextWake()
+		if nw == 0 || nw > end.UnixNano() {
+			break
+		}
+		if s := time.Duration(nw - time.Now().UnixNano()); s > 0 {
+			time.Sleep(s)
+		} else {
+			time.Sleep(0)
+		}
+	}
+	if s := time.Until(end); s > 0 {
+		time.Sleep(s)
+	}
+	w.Settle()
+}
